@@ -6,6 +6,7 @@ renders / re-assembles each word; C->S: T_C18.tla judges every observation again
 import os, sys, io, json, hashlib, re, random, collections, traceback, multiprocessing, contextlib
 from . import core
 
+AGAIN = 1 << 28      # id offset of a differing second observation of the same word
 TIERS = {'quick': dict(pats=1, nrnd=20000), 'thorough': dict(pats=9, nrnd=50000)}
 
 
@@ -93,16 +94,17 @@ def observe_word(P, wid, hi, lo, sink):
     import struct
     w = (hi << 16) | lo
     r = {'id': wid, 'w': [hi, lo], 'ncl': 0, 'cls': '', 'dec': 0, 'decx': '', 'mn': '', 'bin': [-1, -1], 'binx': '',
-         'str': 0, 'strx': '', 'asm': -1, 'asmx': '', 'asmw': [-1, -1], 'text': ''}
+         'str': 0, 'strx': '', 'asm': -1, 'asmx': '', 'asmw': [-1, -1], 'text': '', 'dcls': ''}
     cl = [c for c in P.tab_mn if c.check(w)]
     r['ncl'] = len(cl)
     r['cls'] = '+'.join(c.__name__ for c in cl)
-    if len(cl) != 1:
-        return r
+    # the decoder itself is asked about EVERY word (not only about the words exactly one class claims): what it returns for a
+    # word that no class - or another class - claims is held to the same clauses
     try:
         with contextlib.redirect_stdout(sink):
             i = P.ppc_mn(w)
         r['dec'] = 1
+        r['dcls'] = type(i).__name__
     except Exception as e:
         r['decx'] = exc_key(e, P)
         return r
@@ -145,6 +147,18 @@ def _work(chunk):
     out = []
     for wid, hi, lo in chunk:
         out.append(observe_word(P, wid, hi, lo, sink))
+        if sink.tell() > 1 << 20:
+            sink.seek(0)
+            sink.truncate()
+    # second pass over the same words in the same process, last word first: every word is now asked after its neighbours
+    # (same opcode, other field values) were decoded.  A second observation that differs from the first is a record of
+    # its own (id + AGAIN) and is judged like any other.
+    first = {r['id']: r for r in out}
+    for wid, hi, lo in reversed(chunk):
+        r2 = observe_word(P, wid, hi, lo, sink)
+        if r2 != first[wid]:
+            r2['id'] = wid + AGAIN
+            out.append(r2)
         if sink.tell() > 1 << 20:
             sink.seek(0)
             sink.truncate()
@@ -206,8 +220,9 @@ def run(tier, chk):
     words = gen_words(tier, chk)
     items = [(k, hi, lo) for k, (m, hi, lo) in enumerate(words)]
     recs = observe(items)
-    if len(recs) != len(items):
+    if sum(1 for r in recs if r['id'] < AGAIN) != len(items):
         raise core.MachineryError('observed %d of %d words' % (len(recs), len(items)))
+    chk.cov['second_observations_that_differ'] = sum(1 for r in recs if r['id'] >= AGAIN)
     modes = collections.Counter(m for m, _, _ in words)
     decoded = [r for r in recs if r['dec'] == 1]
     for r in decoded[:: max(1, len(decoded) // 6)][:6]:
@@ -243,7 +258,7 @@ NC_WORDS = [(0x7C0A, 0x5214), (0x7C0A, 0x5214), (0x7C0A, 0x5214), (0x7C0A, 0x521
 
 def negative_control(chk):
     """corrupt one recorded field per twin and require T_C18 to reject exactly that clause on exactly that record"""
-    recs = [strip(r) for r in observe([(k, hi, lo) for k, (hi, lo) in enumerate(NC_WORDS)])]
+    recs = [strip(r) for r in observe([(k, hi, lo) for k, (hi, lo) in enumerate(NC_WORDS)]) if r['id'] < AGAIN]
     if recs[0]['dec'] != 1 or recs[4]['dec'] != 1:
         raise core.MachineryError('negative control: add r0,r10,r10 / li r3,0 do not decode at all: %r' % (recs[0],))
     recs[1]['bin'] = [recs[1]['bin'][0], recs[1]['bin'][1] ^ 2]          # wrong re-encoding
